@@ -648,6 +648,22 @@ def structured_damage(case, r):
             b = bytearray(data)
             b[19] = r.choice([0, 129, 255, 128, 1])
             out.append(rewrap(case, bytes(b), "control"))
+            # every group control byte of the first records at every boundary value (128 is where "literal" meets "repeat")
+            pos, ctl = 18, []
+            for _rec in range(3):
+                if pos >= len(data):
+                    break
+                count, i = data[pos], pos + 1
+                while i < pos + 1 + count and i < len(data) and len(ctl) < 8:
+                    ctl.append(i)
+                    i += 2 if data[i] > 128 else 1 + data[i]
+                pos += 1 + count
+            for i in ctl:
+                for v in (0, 1, 127, 128, 129, 255):
+                    if data[i] != v:
+                        b = bytearray(data)
+                        b[i] = v
+                        out.append(rewrap(case, bytes(b), "control"))
         else:
             out.append(rewrap(case, data[:-1], "control"))
             out.append(rewrap(case, data + b"\x11", "control"))
